@@ -22,12 +22,15 @@ pub mod num {
         #[verifier::external_body] pub fn pow(&self, e: u32) -> (r: BigInt) ensures r@ == pow(self@, e as nat), e == 2 ==> r@ == self@ * self@ { unimplemented!() }
         /// integer square root (Roots::sqrt): panics on a negative argument
         #[verifier::external_body] pub fn sqrt(&self) -> (r: BigInt) requires self@ >= 0 ensures r@ >= 0, r@ * r@ <= self@ < (r@ + 1) * (r@ + 1) { unimplemented!() }
-        /// TryInto<u128>
-        #[verifier::external_body] pub fn try_into(&self) -> (r: Result<u128, TryFromBigIntError>)
-            ensures 0 <= self@ <= u128::MAX ==> r == Ok::<u128, TryFromBigIntError>(self@ as u128), !(0 <= self@ <= u128::MAX) ==> r is Err { unimplemented!() }
         #[verifier::external_body] pub fn to_biguint(&self) -> (r: Option<BigInt>) ensures self@ >= 0 ==> r is Some && r->Some_0@ == self@, self@ < 0 ==> r is None { unimplemented!() }
     }
     #[derive(Debug)] pub struct TryFromBigIntError {}
+    /// TryFrom<BigInt> / TryFrom<&BigInt> for u128: succeeds iff the value is in range
+    pub open spec fn big_to_u128(v: int) -> Result<u128, TryFromBigIntError> { if 0 <= v <= u128::MAX { Ok(v as u128) } else { Err(TryFromBigIntError {}) } }
+    impl TryFromSpecImpl<BigInt> for u128 { open spec fn obeys_try_from_spec() -> bool { true } open spec fn try_from_spec(v: BigInt) -> Result<u128, TryFromBigIntError> { big_to_u128(v@) } }
+    impl TryFrom<BigInt> for u128 { type Error = TryFromBigIntError; #[verifier::external_body] fn try_from(v: BigInt) -> (r: Result<u128, TryFromBigIntError>) { unimplemented!() } }
+    impl<'a> TryFromSpecImpl<&'a BigInt> for u128 { open spec fn obeys_try_from_spec() -> bool { true } open spec fn try_from_spec(v: &'a BigInt) -> Result<u128, TryFromBigIntError> { big_to_u128(v@) } }
+    impl<'a> TryFrom<&'a BigInt> for u128 { type Error = TryFromBigIntError; #[verifier::external_body] fn try_from(v: &'a BigInt) -> (r: Result<u128, TryFromBigIntError>) { unimplemented!() } }
 
     pub mod integer { pub trait Roots {} }
     pub mod rational {
